@@ -722,15 +722,60 @@ func c13EveryPartChecked(w *World, r *Report) {
 	first, rest := false, false
 	startsAt := int64(-1)
 	loops := ssaLoops(f)
+	// the places where a part is tested: a branch on LessThan(GetEnd(k), GetStart(k)) here, or a call of a
+	// helper of the package that makes that test, on every path through it, for the index it is handed
+	type testSite struct {
+		k ssa.Value
+		b *ssa.BasicBlock
+	}
+	var sites []testSite
 	for _, b := range f.Blocks {
-		iff, ok := b.Instrs[len(b.Instrs)-1].(*ssa.If)
-		if !ok {
-			continue
+		if iff, ok := b.Instrs[len(b.Instrs)-1].(*ssa.If); ok {
+			if k, ok := partIndex(iff.Cond); ok {
+				sites = append(sites, testSite{k, b})
+			}
 		}
-		k, ok := partIndex(iff.Cond)
-		if !ok {
-			continue
+		for _, in := range b.Instrs {
+			c, ok := in.(*ssa.Call)
+			if !ok {
+				continue
+			}
+			h := c.Call.StaticCallee()
+			if h == nil || h.Pkg != f.Pkg || h.Blocks == nil || h == f {
+				continue
+			}
+			for _, hb := range h.Blocks {
+				hif, ok := hb.Instrs[len(hb.Instrs)-1].(*ssa.If)
+				if !ok {
+					continue
+				}
+				hk, ok := partIndex(hif.Cond)
+				if !ok {
+					continue
+				}
+				prm, isP := hk.(*ssa.Parameter)
+				if !isP {
+					continue
+				}
+				always := true
+				for _, rb := range h.Blocks {
+					if _, isRet := rb.Instrs[len(rb.Instrs)-1].(*ssa.Return); isRet && !hb.Dominates(rb) {
+						always = false
+					}
+				}
+				if !always {
+					continue
+				}
+				for pi, q := range h.Params {
+					if q == prm && pi < len(c.Call.Args) {
+						sites = append(sites, testSite{c.Call.Args[pi], b})
+					}
+				}
+			}
 		}
+	}
+	for _, ts := range sites {
+		k, b := ts.k, ts.b
 		if c, isC := k.(*ssa.Const); isC {
 			if v, _ := constant.Int64Val(constant.ToInt(c.Value)); v == 0 {
 				all := true
